@@ -31,8 +31,9 @@ class Repo:
         self.lib["maz"] = self._load_maz()
         self.puan = self.load("puan")
         self.plog = self.load("puan.logic.plog")
-        from .models import id_generator_model
+        from .models import id_generator_model, from_json_model
         self.plog.AtLeast._id_generator = id_generator_model(self.plog.AtLeast._id_generator)
+        self.plog.from_json = from_json_model(self.plog.from_json)
 
     # ------------------------------------------------------------------------------------------
     def _path(self, name):
